@@ -310,12 +310,25 @@ LEAVES = [
     ["reduce", {"strategy": "direct", "window_length": 2, "reg": "lin"}],
     ["reduce", {"strategy": "multioutput", "window_length": 3, "reg": "rawlin"}],
     ["reduce", {"strategy": "dirrec", "window_length": 2, "reg": "ridge"}],
+    # further option values of the same forecasters
+    ["naive", {"strategy": "mean"}],
+    ["naive", {"strategy": "drift", "window_length": 4}],
+    ["naive", {"strategy": "mean", "sp": 3}],
+    ["poly", {"degree": 1, "with_intercept": False}],
+    ["poly", {"degree": 3}],
 ]
 SLOW_LEAVES = [
     ["es", {}],
     ["es", {"trend": "add"}],
     ["theta", {"sp": 1}],
     ["ets", {"auto": False}],
+    ["es", {"trend": "add", "damped_trend": True}],
+    ["es", {"seasonal": "add", "sp": 4}],
+    ["es", {"trend": "add", "initialization_method": "heuristic"}],
+    ["theta", {"sp": 4}],
+    ["theta", {"sp": 4, "deseasonalize": False}],
+    ["ets", {"auto": False, "trend": "add"}],
+    ["ets", {"auto": False, "error": "mul"}],
 ]
 TRANSFORMERS = [
     ["detrend", {"degree": 1}],
